@@ -277,6 +277,18 @@ def run(prop, tier, seed):
         transitions += st["tlc"]["generated"]
         judged += st.get("judged_states", 0)
         ctx.log("B %s" % st)
+    stats_c = []
+    if prop == "C02":
+        # marking-driven refinement belongs to C02's operation alphabet too: the Doerfler actions of
+        # STMesh from every small mesh and every pair of marked sets, against the real calls
+        from . import dorfler_check as dc
+        for lay_spec, b in ([((1, 3, True), 2), ((1, 2, False), 2)] if tier == "quick" else
+                            [((1, 3, True), 3), ((1, 2, False), 3), ((2, 2, False), 2)]):
+            st = dc.refinement_model(ctx, lay_spec, b, False, False)
+            stats_c.append(st)
+            states += st["tlc"]["distinct"]
+            transitions += st["tlc"]["generated"]
+            ctx.log("C %s" % st)
     tr = random_traces(ctx, prop, tier, seed)
     ctx.log("traces %s" % {k: v for k, v in tr.items() if k != "per_layout"})
     selftest = binding_selftest(ctx)
@@ -285,7 +297,7 @@ def run(prop, tier, seed):
         "traces_validated_against_impl": judged + tr["traces"],
         "samples": [{"exhaustive_layout": stats_a[0]}, {"random_trace_events": tr["samples"]}],
         "exhaustive": True,
-        "exhaustive_view": stats_a, "exhaustive_ordered": stats_b,
+        "exhaustive_view": stats_a, "exhaustive_ordered": stats_b, "exhaustive_doerfler_actions": stats_c,
         "random_traces": tr, "binding_selftest": selftest,
         "rule": "every state reachable within the stated primitive-bisection budget from each root layout "
                 "(operations: bisect time/space, both, uniform, uniform space), TLC graph == real-code graph; "
